@@ -92,7 +92,7 @@ struct res {
   int inj; char calls[64]; int skipped;
   long flen; unsigned fhash, bhash; int blen;
 };
-struct op { char kind; int i, a, b, c, d, e; char flags[8]; char tag[32]; char s[16]; char *text; };
+struct op { char kind; int i, a, b, c, d, e; long long wide; char flags[8]; char tag[32]; char s[16]; char *text; };
 
 struct slot { assemblyline_t al; int ext, cap; unsigned char *buf, *region; size_t rlen; assemblyline_t mir; unsigned char *mbuf; };
 
@@ -193,7 +193,7 @@ static void run_pass(struct op *ops, int nops, unsigned char fill, struct res *r
       break; }
     case 'D': LIB(x->ret = asm_destroy_instance(s->al)); if (s->mir) asm_destroy_instance(s->mir); if (s->ext) munmap(s->region, s->rlen); memset(s, 0, sizeof *s); break;
     case 'O': setter(s->al, o->s, o->a); if (s->mir) setter(s->mir, o->s, o->a); break;
-    case 'K': asm_set_chunk_size(s->al, (size_t)(long)o->a); if (s->mir) asm_set_chunk_size(s->mir, (size_t)(long)o->a); break;
+    case 'K': asm_set_chunk_size(s->al, (size_t)o->wide); if (s->mir) asm_set_chunk_size(s->mir, (size_t)o->wide); break;
     case 'F': asm_set_offset(s->al, o->a); if (s->mir) asm_set_offset(s->mir, o->a); break;
     case 'G': asm_set_debug(s->al, o->a); break;
     case 'W': tw[0] = o->a; tw[1] = o->b; tw[2] = o->c; tw[3] = o->d; tw[4] = o->e; have_tw = 1; break;
@@ -436,7 +436,8 @@ int main(void) {
     case 'C': { char kind[8]; int cap = 0; if (sscanf(ln + 2, "%d %7s %d", &o->i, kind, &cap) >= 2) { o->a = !strcmp(kind, "ext"); o->b = cap; } break; }
     case 'M': case 'D': case 'P': case 'X': sscanf(ln + 2, "%d", &o->i); break;
     case 'O': sscanf(ln + 2, "%d %15s %d", &o->i, o->s, &o->a); break;
-    case 'K': case 'F': case 'G': sscanf(ln + 2, "%d %d", &o->i, &o->a); break;
+    case 'K': sscanf(ln + 2, "%d %lld", &o->i, &o->wide); o->a = o->wide > (1LL << 30) ? (1 << 30) : (int)o->wide; break;   /* the chunk size is a size_t */
+    case 'F': case 'G': sscanf(ln + 2, "%d %d", &o->i, &o->a); break;
     case 'W': sscanf(ln + 2, "%d %d %d %d %d", &o->a, &o->b, &o->c, &o->d, &o->e); break;
     case 'A': case 'T': hex[0] = 0; sscanf(ln + 2, "%d %7s %31s %4194303s", &o->i, o->flags, o->tag, hex); break;
     case 'N': case 'U': hex[0] = 0; sscanf(ln + 2, "%d %d %7s %31s %4194303s", &o->i, &o->a, o->flags, o->tag, hex); break;
